@@ -11,6 +11,13 @@ for d in sorted(glob.glob("/tmp/seed_out/C*/*")):
     res = json.load(open(rp))
     if not res.get("applies") or res.get("demo_unchanged", {}).get("rc") != 0 or res.get("demo_changed", {}).get("rc") == 0:
         print("skip (not confirmed)", d, res.get("applies"), res.get("demo_unchanged", {}).get("rc"), res.get("demo_changed", {}).get("rc"))
+        mp = os.path.join(V, "seeded", "%s-%s" % (prop, k), "meta.json")
+        if os.path.exists(mp) and res.get("applies") is False:
+            m = json.load(open(mp))
+            m["later_tree"] = {"commit": res.get("base"), "at": res.get("at"),
+                               "note": "patch.diff no longer applies: the code it changes was rewritten by a later repair of /repo; the "
+                                       "confirmation and the check result above are from the base commit recorded there"}
+            json.dump(m, open(mp, "w"), indent=1)
         continue
     out = os.path.join(V, "seeded", "%s-%s" % (prop, k))
     os.makedirs(out, exist_ok=True)
